@@ -50,6 +50,15 @@ CHECKS = {
  "C15": ("bounded-exhaustive program-space enumeration (props groups with keys shared across variants and types) x query-key closure (declared keys, case variants, prefixes, all strings <= 2) x three getters x every variant, on compiled derive output vs reference map",
          "For every enum of the bounded space every declared variant is queried with every key of the query closure through get_str, get_int and get_bool; presence and absence (other variant, other type, disabled) are compared with the reference property table.",
          "trusted: rustc, generated constructors, vf-core R-props", "DESIGN.md §4 C15"),
+ "C10": ("explicit-state BFS to fixpoint (stateright) over (real table, reference array) states from four constructors with the real table rebuilt by history replay; program space of disabled placements x discriminant forms x identifier shapes",
+         "For every enum of the program space all value assignments reachable by IndexMut writes over {0,1,2} from new/filled/from_closure/default are visited; in every state every key is read back (disabled keys must panic on read and write), and transform, all and all_ok are compared with the reference; holds for write histories of any length over the alphabet.",
+         "trusted: rustc, generated key()/vidx() matches and DynTable glue, derived Debug of the table (state key), stateright BFS; element type u8", "DESIGN.md §4 C10"),
+ "C11": ("bounded-exhaustive program-space enumeration (default/transparent variants in every position/form/inner type) x the C01 input closure for captures x a differential format-spec grid against the inner value",
+         "Every string of the input closure not claimed by another variant must be captured verbatim and print back unchanged; every transparent (and default) variant is formatted with the whole spec grid and through as_ref / From and must equal the same operation applied to the inner value.",
+         "trusted: rustc/core::fmt (the inner value's own impls are the reference), derived Debug, vf-core R-parse", "DESIGN.md §4 C11"),
+ "C17": ("bounded-exhaustive program-space enumeration x complete format-spec grid (differential against `<str as Display>`), plus placeholder literals generated from a segment grammar compared with format! of the same literal",
+         "Every enabled variant of every enum of the bounded space is formatted with every spec of the grid and must equal the reference name formatted as &str; every placeholder literal of the grammar (all arrangements with repetition, spec forms, separators incl. adjacent escaped braces) must render exactly like format! with the same literal and the fields bound by name/position.",
+         "trusted: rustc/core::fmt as reference, vf-core R-name, generated constructors; interpolated variants compared under `{}` only", "DESIGN.md §4 C17"),
 }
 PENDING = {}
 
